@@ -72,9 +72,9 @@ theorem Good.noteNat (x : String) (T : Ty) (e : Z) : Good N σ (noteNat x T e) (
 
 theorem Good.freshName (nm : String) : Good N σ (freshName nm) (fun _ => True) := by
   intro s b s' hrun
-  simp only [Holpy.C06.freshName, Prod.mk.injEq] at hrun
-  obtain ⟨_, rfl⟩ := hrun
-  exact ⟨fun _ _ h => h, fun _ _ _ => trivial⟩
+  unfold Holpy.C06.freshName at hrun
+  split at hrun <;> simp only [Prod.mk.injEq] at hrun <;> obtain ⟨_, rfl⟩ := hrun <;>
+    exact ⟨fun _ _ h => h, fun _ _ _ => trivial⟩
 
 theorem lookup_append_some {β : Type} (k : String) (l l' : List (String × β)) (v : β)
     (h : lookup k l = some v) : lookup k (l ++ l') = some v := by
